@@ -2243,7 +2243,7 @@ void get_line_number_info (char **ret_file, int *ret_line) {
 }
 
 char* get_line_number (const char *p, const program_t * progp) {
-  static char buf[256];
+  static char buf[PATH_MAX + 32];	/* "/<file>:<line>": a source file name can be as long as a path */
   int i;
   char *file = "???";
   int line = -1;
@@ -2270,7 +2270,7 @@ char* get_line_number (const char *p, const program_t * progp) {
     }
   if (!file)
     file = progp->name;
-  sprintf (buf, "/%s:%d", file, line);
+  snprintf (buf, sizeof (buf), "/%s:%d", file, line);
   return buf;
 }
 
